@@ -42,3 +42,4 @@ def run(ctx):
     ctx.run("C06.EXPIRES", "R-ARITH", mem.expires)
     ctx.run("C05.META-DUAL", "R-DUAL", mem.meta_dual)
     ctx.run("C05.RESULT-BEFORE-META", "R-ORDER", mem.result_before_meta)
+    ctx.run("C06.OPTIONAL-TIMESTAMP", "R-FLOW", mem.optional_timestamp)
